@@ -245,6 +245,9 @@ func RunCheck(cfg CheckConfig) int {
 			maxp = 400000
 		}
 		spec := &HarnessSpec{Name: hd.Name, Fn: fn, Limits: Limits{Depth: depth, Loop: loop, Instrs: 30000000}, MaxPaths: maxp}
+		if hd.Sched {
+			spec.StopAfter = 2 // whole runs: every interleaving of a broken program tends to fail
+		}
 		sampleEvery := 1
 		maxSamples := 40
 		if cfg.Tier == "thorough" {
